@@ -20,4 +20,28 @@ package hash
 //@   ghost at call EncodeToString: glHash = res
 //@   ensures len(res) <= maxLength && hasPrefix(res, fixedPrefix)
 //@   ensures glFits(fixedPrefix, glSuffix(suffix), maxLength) ==> res == fixedPrefix + glSuffix(suffix)
-//@   ensures !glFits(fixedPrefix, glSuffix(suffix), maxLength) ==> len(glHash) == 43 && res == fixedPrefix + "_" + glHash[0:(maxLength - 1 - len(fixedPrefix) < 43 ? maxLength - 1 - len(fixedPrefix) : 43)]
+//@   ensures !glFits(fixedPrefix, glSuffix(suffix), maxLength) ==> len(glHash) == 43
+//@   ensures res == glName(fixedPrefix, suffix, maxLength, glHash)
+
+//@ -- The name as a function of (prefix, suffix, limit) and the hash text of the suffix.
+//@ spec func glKeep(max int, p string) int = max - 1 - len(p) < 43 ? max - 1 - len(p) : 43
+//@ spec func glName(p string, s string, max int, h string) string = glFits(p, glSuffix(s), max) ? p + glSuffix(s) : p + "_" + h[0:glKeep(max, p)]
+//@ -- Distinct identities get distinct names: kept names differ because the suffixes differ; a kept name never
+//@ -- equals a shortened one because identities do not start with the marker "_" (and an exact-fit name that
+//@ -- does is shortened); two shortened names differ provided the truncated hashes differ (cryptographic
+//@ -- assumption, stated as the hypothesis h1[0:k] != h2[0:k]).
+//@ lemma gl_no_collision: forall p string, s1 string, s2 string, max int, h1 string, h2 string ::
+//@      len(p) + 2 <= max && len(h1) == 43 && len(h2) == 43 && s1 != s2 && s1 != "" && s2 != ""
+//@      && !hasPrefix(s1, "_") && !hasPrefix(s2, "_") && h1[0:glKeep(max, p)] != h2[0:glKeep(max, p)]
+//@      ==> glName(p, s1, max, h1) != glName(p, s2, max, h2)
+//@   property C37
+//@   option mathint
+//@ lemma gl_length: forall p string, s string, max int, h string :: len(p) + 2 <= max && len(h) == 43 ==> len(glName(p, s, max, h)) <= max && hasPrefix(glName(p, s, max, h), p)
+//@   property C37
+//@   option mathint
+//@ -- with the classic 28-character iptables limit the shortened name uses the full room (no slack for a kept
+//@ -- name to imitate it): exactly max characters
+//@ lemma gl_exact_when_short: forall p string, s string, max int, h string :: len(p) + 2 <= max && max - 1 - len(p) <= 43 && len(h) == 43
+//@      && !glFits(p, glSuffix(s), max) ==> len(glName(p, s, max, h)) == max
+//@   property C37
+//@   option mathint
